@@ -9,6 +9,16 @@ impl<'a, S: VRead> VBufReader<'a, S> {
         ensures r.wf(), r.data() == old(inner).data(), r.pos() == old(inner).pos(),
     { unimplemented!() }
 }
+impl<'a, S: VStream> VBufReader<'a, S> {
+    /// BufReader::seek_relative (std: moves inside the buffer when it can, else `inner.seek(SeekFrom::Current(offset - buffered))`):
+    /// same argument domain as any relative seek
+    #[verifier::external_body]
+    pub fn seek_relative(&mut self, offset: i64) -> (r: std::io::Result<()>)
+        requires old(self).wf(), old(self).pos() + offset <= i64::MAX,
+        ensures final(self).wf(), final(self).data() == old(self).data(),
+            r is Ok ==> final(self).pos() == old(self).pos() + offset,
+    { unimplemented!() }
+}
 impl<'a, S: VRead> VRead for VBufReader<'a, S> {
     closed spec fn data(&self) -> Seq<u8> { self.inner.data() }
     closed spec fn pos(&self) -> nat { self.lpos@ }
